@@ -191,12 +191,17 @@ def context_schema(ctx_expr):
     spec = schemas.spec_of("test")
     spec["nodes"] = dict(spec["nodes"])
     spec["nodes"]["hit"] = {"inline": True, "group": "inline", "parseDOM": [{"tag": "x-mark", "context": ctx_expr}], "toDOM": lambda n: ["x-hit"]}
+    # node types that belong to several groups (context parts name either)
+    for nm, extra in (("blockquote", "container"), ("list_item", "item container"), ("heading", "titled")):
+        nd = dict(spec["nodes"][nm])
+        nd["group"] = (nd.get("group", "") + " " + extra).strip()
+        spec["nodes"][nm] = nd
     spec["nodes"]["miss"] = {"inline": True, "group": "inline", "parseDOM": [{"tag": "x-mark"}], "toDOM": lambda n: ["x-miss"]}
     return spec
 
 
 CONTEXTS = ["blockquote/", "doc//", "list_item/paragraph/|blockquote/", "paragraph/", "blockquote//", "block/", "bullet_list//paragraph/",
-            "doc/blockquote/paragraph/", "heading/ | list_item//"]
+            "doc/blockquote/paragraph/", "heading/ | list_item//", "container/paragraph/", "container//", "titled/|item//"]
 
 
 def parse_ctx(expr):
@@ -334,7 +339,7 @@ def run(tier: str, seed: int, t0: float) -> int:
     return core.finish("C19", tier, seed, stats, out, t0,
                        rule="(a) HTML fragments: every well-nested fragment of <= 3/4 nodes over four tag vocabularies (block, inline+attributes+styles, list, table/ignorable/unknown) "
                             "enumerated by TLC + hand-made edge cases; (c)/(d) every TLC-generated bundled document and random bundled documents: serialise, tokenize, parse back; "
-                            "(b) nine context expressions x marker positions in random documents",
+                            "(b) twelve context expressions (three through second groups of multi-group node types) x marker positions in random documents",
                        assumptions=["lxml's HTML tokenisation / tag-soup repair and CSS selector matching are outside the specification",
                                     "the serialised string is tokenized with the standard library's html.parser",
                                     "round trip claimed for whitespace-normal documents whose attributes the bundled rules carry both ways"])
